@@ -23,7 +23,7 @@ func init() {
 }
 
 var c19Kinds = []string{"fault-close-before", "served", "served-post", "notfound", "paused-out", "stopped", "redirect", "too-large-request", "too-large-response",
-	"fault-garbage", "fault-timeout", "fault-cut-body", "abort-before-headers", "abort-mid-stream", "upgrade", "sse"}
+	"fault-garbage", "fault-timeout", "fault-cut-body", "abort-before-headers", "abort-mid-stream", "upgrade", "sse", "abort-after-headers", "raced-by-stop"}
 
 func genC19(seed int64, tier string) *Scenario {
 	rng := rand.New(rand.NewSource(seed))
@@ -45,10 +45,12 @@ func genC19(seed int64, tier string) *Scenario {
 	dep("red", "secure.test", "red1:80", &SvcOpts{TLS: true, TLSRedirect: true, StaticCert: "good"})
 	dep("pz", "paused.test", "pz1:80", nil)
 	dep("st", "stopped.test", "st1:80", nil)
+	dep("rc", "race.test", "rc1:80", nil)
 	main.Ops = append(main.Ops, Op{Kind: "pause", Service: "pz", DrainTimeout: 200 * time.Millisecond, PauseTimeout: 150 * time.Millisecond})
 	main.Ops = append(main.Ops, Op{Kind: "stop", Service: "st", DrainTimeout: 200 * time.Millisecond, Message: "closed"})
 	sc.Actors = append(sc.Actors, main)
 	nc := 1 + rng.Intn(3)
+	raced := false
 	var dials []string
 	for c := 0; c < nc; c++ {
 		a := ActorSpec{Name: fmt.Sprintf("client%d", c)}
@@ -105,6 +107,23 @@ func genC19(seed int64, tier string) *Scenario {
 				o.AbortAfter = time.Duration(100+rng.Intn(300)) * time.Millisecond
 			case "sse":
 				o.Sim = "mode=sse;chunks=3;gap=30ms;size=90"
+			case "abort-after-headers":
+				// the target's header block has reached the client, the body has not begun
+				o.Sim = "mode=" + pick(rng, "stream", "sse") + ";chunks=2;gap=20ms;size=60;pregap=700ms"
+				o.AbortAfter = time.Duration(150+rng.Intn(300)) * time.Millisecond
+			case "raced-by-stop":
+				// a stop or pause of the service lands while the request is between
+				// the gate and its claim (or between the claim and the second look at
+				// the gate): it is answered by the proxy and no target ever sees it
+				o.Host = "race.test"
+				if !raced {
+					raced = true
+					at := pick(rng, "service.afterGate", "lb.claim", "service.claimed")
+					o.Hold = &Hold{At: at, For: "service.beforeDrain", N: 1, Max: 2 * time.Second}
+					racer := ActorSpec{Name: "racer", Ops: []Op{{Kind: pick(rng, "stop", "pause"), Service: "rc", DrainTimeout: 200 * time.Millisecond, PauseTimeout: 150 * time.Millisecond, Message: "raced",
+						After: "hold:" + at, AfterN: 1, Delay: 5 * time.Second}}}
+					sc.Actors = append(sc.Actors, racer)
+				}
 			}
 			a.Ops = append(a.Ops, o)
 		}
@@ -203,7 +222,7 @@ func checkC19(r *RunResult) []Violation {
 		chk("scheme", logStr(rec, "scheme"), "http")
 		chk("user_agent", logStr(rec, "user_agent"), headerValue(q.Op.Headers, "User-Agent"))
 		chk("req_content_type", logStr(rec, "req_content_type"), headerValue(q.Op.Headers, "Content-Type"))
-		wantSvc := map[string]string{"web.test": "web", "paused.test": "pz", "stopped.test": "st", "secure.test:8080": "red", "nobody.test": ""}[host]
+		wantSvc := map[string]string{"web.test": "web", "paused.test": "pz", "stopped.test": "st", "secure.test:8080": "red", "nobody.test": "", "race.test": "rc"}[host]
 		chk("service", logStr(rec, "service"), wantSvc)
 		status := int(logInt(rec, "status"))
 		written := logInt(rec, "resp_content_length")
@@ -214,7 +233,8 @@ func checkC19(r *RunResult) []Violation {
 			chk("target", logStr(rec, "target"), q.ServedBy)
 		case send != nil:
 			chk("target", logStr(rec, "target"), send.Target)
-		case kind == "notfound" || kind == "paused-out" || kind == "stopped" || kind == "redirect":
+		case kind == "notfound" || kind == "paused-out" || kind == "stopped" || kind == "redirect" || kind == "raced-by-stop":
+			// (raced-by-stop: only reached when no request byte was written to any target)
 			chk("target", logStr(rec, "target"), "")
 		}
 		// status
